@@ -32,12 +32,18 @@ def _site():
     """nautilus function (in sampler.py) issuing the current operation"""
     import sys
     f = sys._getframe(2)
+    names = []
     while f is not None:
         fn = f.f_code.co_filename
         if fn.endswith('/sampler.py'):
-            return f.f_code.co_name
+            names.append(f.f_code.co_name)
         f = f.f_back
-    return '?'
+    # the checkpoint entry point the operation belongs to, whatever private
+    # helpers it is delegated to
+    for entry in ('write_shell_update', 'write'):
+        if entry in names:
+            return entry
+    return names[0] if names else '?'
 
 
 def _copy_value(v):
